@@ -2,7 +2,12 @@
 
 package kfake
 
-import "github.com/twmb/franz-go/pkg/kmsg"
+import (
+	"io"
+	"os"
+
+	"github.com/twmb/franz-go/pkg/kmsg"
+)
 
 // This file exists only under the `verif` build tag. It exports thin shims
 // over unexported types for the external model-based verification harness;
@@ -76,3 +81,38 @@ func VerifServerAssign(assignor string, topics map[string]int32, members []Verif
 	}
 	return out
 }
+
+// VerifFile and VerifFS mirror the unexported file / fs interfaces so that a recording crash-simulating file system
+// can be injected from outside the package (property C33).
+type VerifFile interface {
+	io.Writer
+	io.Reader
+	io.Closer
+	Seek(offset int64, whence int) (int64, error)
+	Truncate(size int64) error
+	Sync() error
+}
+
+type VerifFS interface {
+	OpenFile(name string, flag int, perm os.FileMode) (VerifFile, error)
+	Rename(oldpath, newpath string) error
+	Remove(name string) error
+	RemoveAll(path string) error
+	MkdirAll(path string, perm os.FileMode) error
+	ReadDir(name string) ([]os.DirEntry, error)
+	ReadFile(name string) ([]byte, error)
+	Stat(name string) (os.FileInfo, error)
+}
+
+type verifFSAdapter struct{ VerifFS }
+
+func (a verifFSAdapter) OpenFile(name string, flag int, perm os.FileMode) (file, error) {
+	f, err := a.VerifFS.OpenFile(name, flag, perm)
+	if err != nil {
+		return nil, err
+	}
+	return f, nil
+}
+
+// VerifWithFS injects a file system implementation (DataDir must also be set).
+func VerifWithFS(f VerifFS) Opt { return withFS(verifFSAdapter{f}) }
